@@ -13,12 +13,15 @@ Search: real Output traces of source and result from reset compared with each ot
 import contextlib
 import hashlib
 import io
+import re
 import pyrtl
 import gen_designs
 import nlx
 
 RULE = ('random API-built designs (registers with/without reset_value, read/write memories with initial '
-        'contents, reserved (unconnected) Input/Const pins, sources already optimize()d IN PLACE before the call (a '
+        'contents, write-only (log) and read-only MemBlocks incl. designs whose ONLY memories are write-only, every documented '
+        'option combination of the three calls (merge_io_vectors, skip_sanity_check, block= given/omitted), final memory '
+        'contents (inspect_mem) compared, reserved (unconnected) Input/Const pins, sources already optimize()d IN PLACE before the call (a '
         'constant-masked pin left dangling), pairs of distinct MemBlocks / RomBlocks deliberately given the SAME name with different ports and '
         'contents, ROMs from list/dict/function, ROMs with pad_with_zeros=True and PARTIAL romdata (short list/tuple, '
         'dict with holes) read inside and outside the data, all 16 ops, widths 1..130) x {copy_block, synthesize, '
@@ -204,9 +207,49 @@ def memory_value_map(block, memmap_by_id, src_mems=None, notes=None):
     return out
 
 
+_BIT = re.compile(r'^(.*)\[(\d+)\]$')
+
+
+def merge_bit_pins(pins):
+    """[(name, width)] with the 1-bit pins name[0..n-1] (synthesize(merge_io_vectors=False)) folded back to (name, n)"""
+    names = {nm for nm, _ in pins}
+    groups, out = {}, []
+    for nm, w in pins:
+        m = _BIT.match(nm)
+        if m and w == 1 and m.group(1) not in names:
+            groups.setdefault(m.group(1), set()).add(int(m.group(2)))
+        else:
+            out.append((nm, w))
+    for base_, idx in groups.items():
+        if idx == set(range(len(idx))):
+            out.append((base_, len(idx)))
+        else:
+            out.extend(('%s[%d]' % (base_, k), 1) for k in sorted(idx))
+    return sorted(out)
+
+
 def interface(block):
-    return {'inputs': sorted((w.name, w.bitwidth) for w in block.wirevector_subset(pyrtl.Input)),
-            'outputs': sorted((w.name, w.bitwidth) for w in block.wirevector_subset(pyrtl.Output))}
+    return {'inputs': merge_bit_pins([(w.name, w.bitwidth) for w in block.wirevector_subset(pyrtl.Input)]),
+            'outputs': merge_bit_pins([(w.name, w.bitwidth) for w in block.wirevector_subset(pyrtl.Output)])}
+
+
+def adapt_inputs(block, step, strict):
+    """the testbench written for the source (vector names) as this block takes it: a vector pin x may have become
+    the bit pins x[0..n-1] (documented effect of merge_io_vectors=False).  strict: a name the block does not take
+    at all is an error (KeyError), as Simulation.step would report it"""
+    byname = block.wirevector_by_name
+    out = {}
+    for nm, v in step.items():
+        if isinstance(byname.get(nm), pyrtl.Input):
+            out[nm] = v
+        elif isinstance(byname.get(nm + '[0]'), pyrtl.Input):
+            k = 0
+            while isinstance(byname.get('%s[%d]' % (nm, k)), pyrtl.Input):
+                out['%s[%d]' % (nm, k)] = (v >> k) & 1
+                k += 1
+        elif strict:
+            raise KeyError(nm)
+    return out
 
 
 def simulate(block, inputs, memmap_by_id, regmap=None, dflt=0, src_mems=None, notes=None, strict=False):
@@ -216,28 +259,80 @@ def simulate(block, inputs, memmap_by_id, regmap=None, dflt=0, src_mems=None, no
     tracer = pyrtl.SimulationTrace(wires_to_track='all', block=block)
     sim = pyrtl.Simulation(tracer=tracer, register_value_map=dict(regmap or {}),
                            memory_value_map=mvm, default_value=dflt, block=block)
-    innames = {w.name for w in block.wirevector_subset(pyrtl.Input)}
     for step in inputs:
-        sim.step(dict(step) if strict else {k: v for k, v in step.items() if k in innames})
+        sim.step(adapt_inputs(block, step, strict))
     return sim, tracer
 
 
 def out_trace(block, tracer, ncyc):
-    return {w.name: list(tracer.trace[w.name][:ncyc]) for w in block.wirevector_subset(pyrtl.Output)}
+    """{output name: values}; bit pins o[0..n-1] are reassembled into o"""
+    raw = {w.name: list(tracer.trace[w.name][:ncyc]) for w in block.wirevector_subset(pyrtl.Output)}
+    out, groups = {}, {}
+    for nm, vals in raw.items():
+        m = _BIT.match(nm)
+        if m and m.group(1) not in raw:
+            groups.setdefault(m.group(1), {})[int(m.group(2))] = vals
+        else:
+            out[nm] = vals
+    for base_, bits in groups.items():
+        if set(bits) == set(range(len(bits))):
+            out[base_] = [sum(bits[k][t] << k for k in bits) for t in range(ncyc)]
+        else:
+            out.update({'%s[%d]' % (base_, k): v for k, v in bits.items()})
+    return out
 
 
-def call_api(api, block):
+def final_memories(block, sim, dflt=0):
+    """{memid: {addr: value}} of every read/write memory after the run (inspect_mem), default entries dropped"""
+    out = {}
+    for i, m in mems_of(block).items():
+        if not isinstance(m, pyrtl.RomBlock):
+            out[i] = {a: v for a, v in sim.memvalue.get(i, {}).items() if v != dflt}
+    return out
+
+
+def call_api(api, block, variant=None):
     with contextlib.redirect_stdout(io.StringIO()):   # optimize prints "deemed useless" notes
-        return _call_api(api, block)
+        return _call_api(api, block, variant or {})
 
 
-def _call_api(api, block):
-    if api == 'copy_block':
-        return pyrtl.copy_block(block, update_working_block=False)
+def pick_variant(k, api, scenario):
+    """the k-th documented way to make the non-updating call (systematic: every option combination is met)"""
+    v = {'block_kw': True}
+    if scenario == 'source-is-working-block' and (k // 2) % 2 == 1:
+        v['block_kw'] = False                      # block omitted: defaults to the working block = the source
     if api == 'synthesize':
-        return pyrtl.synthesize(update_working_block=False, block=block)
+        v['merge_io_vectors'] = k % 2 == 1
     if api == 'optimize':
-        return pyrtl.optimize(update_working_block=False, block=block)
+        v['skip_sanity_check'] = k % 2 == 1
+    return v
+
+
+def variant_str(api, v):
+    kw = ['update_working_block=False']
+    if 'merge_io_vectors' in v:
+        kw.append('merge_io_vectors=%s' % v['merge_io_vectors'])
+    if 'skip_sanity_check' in v:
+        kw.append('skip_sanity_check=%s' % v['skip_sanity_check'])
+    if v.get('block_kw', True):
+        kw.append('block=src')
+    return '%s(%s)' % (api, ', '.join(kw))
+
+
+def _call_api(api, block, v):
+    kw = {'update_working_block': False}
+    if v.get('block_kw', True):
+        kw['block'] = block
+    if api == 'copy_block':
+        return pyrtl.copy_block(**kw)
+    if api == 'synthesize':
+        if 'merge_io_vectors' in v:
+            kw['merge_io_vectors'] = v['merge_io_vectors']
+        return pyrtl.synthesize(**kw)
+    if api == 'optimize':
+        if 'skip_sanity_check' in v:
+            kw['skip_sanity_check'] = v['skip_sanity_check']
+        return pyrtl.optimize(**kw)
     raise ValueError(api)
 
 
@@ -454,7 +549,10 @@ def container_mutations(X, rng):
 def build(ctx, i):
     rng = ctx.sub_rng('design', i)
     mode = i % 3
-    if mode == 0:
+    logs_only = i % 5 == 4        # memory profile: the design's only memories are write-only logs
+    if logs_only:
+        d = gen_designs.make_design(rng, wide_prob=0.05, max_width=16, allow_mem=False, allow_rom=False)
+    elif mode == 0:
         d = gen_designs.make_design(rng, wide_prob=0.0, max_width=8)
     elif mode == 1:
         d = gen_designs.make_design(rng, wide_prob=0.1, max_width=33)
@@ -463,8 +561,9 @@ def build(ctx, i):
                'slice', 'index', 'const', 'trunc', 'zext', 'sext', 'memrd', 'romrd', 'select']
         d = gen_designs.make_design(rng, wide_prob=0.25, ops_subset=ops, n_ops=rng.randint(4, 12))
     ncyc = rng.randint(3, 6 if ctx.tier == 'quick' else 12)
-    holes = add_padded_rom(rng, d) if rng.random() < 0.6 else None
-    dup = add_same_named_memories(rng, d) if rng.random() < 0.5 else None
+    holes = add_padded_rom(rng, d) if rng.random() < 0.6 and not logs_only else None
+    dup = add_same_named_memories(rng, d) if rng.random() < 0.5 and not logs_only else None
+    kinds = add_memory_kinds(rng, d, read_only=not logs_only) if (rng.random() < 0.6 or logs_only) else None
     if rng.random() < 0.5:
         add_reserved_pins(rng, d)
     if rng.random() < 0.4:
@@ -475,6 +574,10 @@ def build(ctx, i):
         pyrtl.set_working_block(d.block, no_sanity_check=True)
         d.ops.append('history:optimized-in-place')
     _, memmap, inputs = gen_designs.make_stimulus(rng, d, ncyc)
+    if kinds is not None:
+        for m in kinds:      # initial contents for the write-only and the read-only memory
+            memmap[m] = {a: gen_designs.boundary_value(rng, m.bitwidth)
+                         for a in range(1 << m.addrwidth) if rng.random() < 0.6}
     if dup is not None:
         # different initial contents, and both read at an initialised address in cycle 0
         (m1, m2), bw = dup
@@ -491,6 +594,38 @@ def build(ctx, i):
         inputs[-1]['c11_ra'] = rng.choice(outside)
     memmap_by_id = {m.id: dict(c) for m, c in memmap.items()}
     return d, memmap, memmap_by_id, inputs
+
+
+def add_memory_kinds(rng, d, read_only=True):
+    """memories of every port profile: WRITE-ONLY (a log/trace memory, observed through inspect_mem only) and
+    READ-ONLY MemBlock (contents from memory_value_map); gen_designs already supplies read+write memories and ROMs.
+    Some designs are reduced to write-only memories alone (no read port anywhere)."""
+    pool = sorted((w for w in d.block.wirevector_set if not isinstance(w, (pyrtl.Output, pyrtl.Const))),
+                  key=lambda w: w.name)
+    out = []
+    with pyrtl.set_working_block(d.block, no_sanity_check=True):
+        aw, bw = rng.choice([1, 2, 3]), rng.choice([1, 2, 4, 7])
+        wa = pyrtl.Input(aw, 'c11_wa')
+        log = pyrtl.MemBlock(bitwidth=bw, addrwidth=aw, name='c11_log', max_read_ports=None, asynchronous=True)
+        data = gen_designs.fit(rng, rng.choice(pool), bw)
+        if rng.random() < 0.6:
+            en = rng.choice(pool)
+            log[wa] <<= pyrtl.MemBlock.EnabledWrite(data, en[rng.randrange(len(en))])
+        else:
+            log[wa] <<= data
+        d.inputs.append(wa)
+        out.append(log)
+        if read_only and rng.random() < 0.6:
+            aw2, bw2 = rng.choice([1, 2, 3]), rng.choice([1, 3, 8])
+            ra = pyrtl.Input(aw2, 'c11_roa')
+            ro = pyrtl.MemBlock(bitwidth=bw2, addrwidth=aw2, name='c11_readonly', max_read_ports=None, asynchronous=True)
+            o = pyrtl.Output(bw2, 'c11_readonly_out')
+            o <<= ro[ra]
+            d.inputs.append(ra)
+            out.append(ro)
+    d.mems.extend(out)
+    d.ops.append('memory-kinds:write-only' + ('+read-only' if len(out) > 1 else ''))
+    return out
 
 
 def add_reserved_pins(rng, d):
@@ -589,21 +724,22 @@ def add_padded_rom(rng, d):
 
 
 def observe(block, inputs, memmap_by_id, src_mems=None):
-    _, tr = simulate(block, inputs, memmap_by_id, src_mems=src_mems)
+    sim, tr = simulate(block, inputs, memmap_by_id, src_mems=src_mems)
     return {'fp': fingerprint(block), 'trace_all': {nm: list(v) for nm, v in tr.trace.items()},
-            'out_trace': out_trace(block, tr, len(inputs))}
+            'out_trace': out_trace(block, tr, len(inputs)), 'mem_final': final_memories(block, sim)}
 
 
-def check_one(ctx, i, api, scenario, src, memmap_by_id, inputs, base, chain=None, bystanders=()):
+def check_one(ctx, i, api, scenario, src, memmap_by_id, inputs, base, chain=None, bystanders=(), variant=None):
     """`base` = observations of the pristine source (fp, traces). Returns info dict.
     chain: the apis that produced `src` from the generated design (history); bystanders: [(label, block, fp)]
     of earlier blocks that must stay untouched too."""
     ncyc = len(inputs)
     src_sim_mems = None if not chain else chain[1]
     rep = {'seed': ctx.seed, 'tier': ctx.tier, 'design': i, 'api': api, 'scenario': scenario,
-           'how': 'gen_designs.make_design(ctx.sub_rng("design", %d), ...) as in C11.build; then %s%s('
-                  'update_working_block=False, block=src)' % (
-                      i, ''.join('%s(update_working_block=False) then ' % a for a in (chain[0] if chain else [])), api),
+           'how': 'gen_designs.make_design(ctx.sub_rng("design", %d), ...) as in C11.build; then %s%s' % (
+                      i, ''.join('%s(update_working_block=False) then ' % a for a in (chain[0] if chain else [])),
+                      variant_str(api, variant or {})),
+           'call': variant_str(api, variant or {}),
            'nets': [str(n) for n in sorted(src.logic, key=str)][:60], 'inputs': inputs,
            'memory_value_map_by_id': {str(k): v for k, v in memmap_by_id.items()}}
 
@@ -616,10 +752,14 @@ def check_one(ctx, i, api, scenario, src, memmap_by_id, inputs, base, chain=None
         pyrtl.set_working_block(other, no_sanity_check=True)
     wb_before = pyrtl.working_block()
     try:
-        res = call_api(api, src)
-    except Exception as e:  # API-built design: the call must succeed
+        res = call_api(api, src, variant)
+    except Exception as e:  # well-formed, API-built source: a non-updating call must succeed
         pyrtl.set_working_block(src, no_sanity_check=True)
-        viol('api-raised:%s:%s' % (api, type(e).__name__), '%s raised %r on an API-built design' % (api, e))
+        viol('api-raised:%s:%s' % (api, type(e).__name__),
+             '%s raised %r on a well-formed API-built design' % (variant_str(api, variant or {}), e))
+        if fingerprint(src) != base['fp']:
+            viol('source-modified:%s' % api, '%s raised and left the source modified' % variant_str(api, variant or {}),
+                 difference=fp_diff(base['fp'], fingerprint(src)))
         return None
     wb_after = pyrtl.working_block()
     if wb_after is not wb_before:
@@ -711,8 +851,17 @@ def check_one(ctx, i, api, scenario, src, memmap_by_id, inputs, base, chain=None
     src_mems = mems_of(src)
     f19 = []
     try:
-        _, rtr = simulate(res, inputs, memmap_by_id, src_mems=src_mems, notes=f19, strict=True)
+        rsim, rtr = simulate(res, inputs, memmap_by_id, src_mems=src_mems, notes=f19, strict=True)
         res_trace = out_trace(res, rtr, ncyc)
+        res_mem = final_memories(res, rsim)
+        want_mem = dict(base.get('mem_final', {}))
+        if 'mem_final' in base and {k: v for k, v in res_mem.items() if k in want_mem} != want_mem:
+            badm = sorted(k for k in want_mem if res_mem.get(k) != want_mem[k])
+            viol('final-memory-differs:%s' % api,
+                 '%s: after the same run the memory contents (inspect_mem) of the result differ from the source\'s: '
+                 'memory id %s holds %s, source %s' % (variant_str(api, variant or {}), badm[:1],
+                                                        res_mem.get(badm[0]) if badm else None,
+                                                        want_mem.get(badm[0]) if badm else None), memories=badm[:4])
         full_trace = {nm: list(v) for nm, v in rtr.trace.items()}
         if f19:
             viol('postsynth-mem-map-not-keyed-by-source-memory:%s' % api,
@@ -831,8 +980,8 @@ def edit_phase(ctx, i, api, scenario, d, res, memmap_by_id, inputs, rep_base):
             for step in inputs:
                 # X runs ahead with different data (so shared state would show)
                 simX.step({nm: ((v + 1) & ((1 << X.wirevector_by_name[nm].bitwidth) - 1))
-                           for nm, v in step.items() if nm in inX})
-                simY.step({nm: v for nm, v in step.items() if nm in inY})
+                           for nm, v in adapt_inputs(X, step, False).items() if nm in inX})
+                simY.step(adapt_inputs(Y, step, False))
             gotY = {nm: list(v) for nm, v in simY.tracer.trace.items()}
             script_log.append('%s: simulate %d steps interleaved' % (x_name, len(inputs)))
             ctx.count('edits', 'simulate')
@@ -877,12 +1026,18 @@ def run(ctx, only=None):
                 break
             base = {'fp': fingerprint(src),
                     'trace_all': {nm: list(v) for nm, v in tr0.trace.items()},
-                    'out_trace': out_trace(src, tr0, ncyc)}
+                    'out_trace': out_trace(src, tr0, ncyc), 'mem_final': final_memories(src, sim0)}
+            variant = pick_variant(i, api, scenario)
+            ctx.count('call_variants', variant_str(api, variant))
             if ai == 0:
                 dump = nlx.Dump(src, net_order=sim0.ordered_nets)
                 names = dump.names()
-                spec_exprs.append('spec_case %s 0 [] %s %s []' % (dump.coq(), dump.memmap(memmap), dump.inputs(inputs)))
-                spec_meta.append(dict(i=i, names=names, trace=[[tr0.trace[nm][t] for nm in names] for t in range(ncyc)],
+                probes = [(mi_, a) for mi_, m_ in sorted(mems_of(src).items()) if not isinstance(m_, pyrtl.RomBlock)
+                          for a in range(1 << m_.addrwidth)]
+                spec_exprs.append('spec_case %s 0 [] %s %s %s' % (dump.coq(), dump.memmap(memmap), dump.inputs(inputs),
+                                                                  nlx.pairs(probes)))
+                spec_meta.append(dict(i=i, names=names, probes=probes,
+                                      mem=[sim0.memvalue.get(mi_, {}).get(a, 0) for mi_, a in probes], trace=[[tr0.trace[nm][t] for nm in names] for t in range(ncyc)],
                                       nets=[str(n) for n in sorted(src.logic, key=str)][:60], inputs=inputs))
                 for o in d.ops:
                     ctx.count('ops', o)
@@ -892,7 +1047,7 @@ def run(ctx, only=None):
                 ctx.count('roms', len(d.roms))
                 ctx.count('cycles', ncyc)
             src_canon = nlx.Dump(src, net_order=canon_nets(src)).coq() if api == 'copy_block' else None
-            info = check_one(ctx, i, api, scenario, src, memmap_by_id, inputs, base)
+            info = check_one(ctx, i, api, scenario, src, memmap_by_id, inputs, base, variant=variant)
             if info is None:
                 continue
             res = info['res']
@@ -937,6 +1092,12 @@ def run(ctx, only=None):
         if r[0][0] != 1:
             ctx.model_mismatch('wfb is false on an API-built design (premise of C11_wellformed_has_arity)', {'design': m['i']})
         spec_trace = r[2:]
+        if list(r[1]) != list(m['mem']):
+            k = next(k for k in range(len(m['mem'])) if r[1][k] != m['mem'][k])
+            ctx.spec_violation('source-simulation-vs-reference-semantics',
+                               'final memory contents of the source (inspect_mem) disagree with Netlist/Sem.v: memory id %d '
+                               'address %d holds %s, reference %s' % (m['probes'][k][0], m['probes'][k][1], m['mem'][k], r[1][k]),
+                               {'seed': ctx.seed, 'design': m['i'], 'nets': m['nets'], 'inputs': m['inputs']})
         if spec_trace != m['trace']:
             t = next(t for t in range(len(m['trace'])) if spec_trace[t] != m['trace'][t])
             k = next(k for k in range(len(m['names'])) if spec_trace[t][k] != m['trace'][t][k])
